@@ -48,7 +48,7 @@ def engine(enabled):
     return fl.Engine("e", "", [fl.InputVariable("X", minimum=0, maximum=1, terms=[fl.Triangle("ON", 0.0, 0.5, 1.0)])],
         [fl.OutputVariable(n, minimum=0, maximum=1, enabled=enabled[n], aggregation=fl.Maximum(), defuzzifier=fl.Centroid(),
                            terms=[fl.Triangle("LOW", 0.0, 0.25, 0.5), fl.Triangle("HIGH", 0.5, 0.75, 1.0), fl.Constant("K", 0.5), fl.Linear("L", [0.5, 0.25]),
-                                  fl.Function("F", "0.5 * x")]) for n in ("A", "B", "C")], [])
+                                  fl.Function("F", "0.5 * x"), fl.Triangle("SHORT", 0.0, 0.5, 1.0, 0.25)]) for n in ("A", "B", "C")], [])
 '''
 
 
@@ -66,7 +66,7 @@ def make_engine(fl, enabled):
     return fl.Engine("e", "", [fl.InputVariable("X", minimum=0, maximum=1, terms=[fl.Triangle("ON", 0.0, 0.5, 1.0)])],
                      [fl.OutputVariable(n, minimum=0, maximum=1, enabled=enabled[n], aggregation=fl.Maximum(), defuzzifier=fl.Centroid(),
                                         terms=[fl.Triangle("LOW", 0.0, 0.25, 0.5), fl.Triangle("HIGH", 0.5, 0.75, 1.0), fl.Constant("K", 0.5), fl.Linear("L", [0.5, 0.25]),
-                                               fl.Function("F", "0.5 * x")]) for n in OUTS], [])
+                                               fl.Function("F", "0.5 * x"), fl.Triangle("SHORT", 0.0, 0.5, 1.0, 0.25)]) for n in OUTS], [])
 
 
 def spec_degree(fl, hedges, d):
@@ -274,8 +274,10 @@ def _cases(tier, seed):
         cases.append((("A", hs, "LOW"),))
     # two and three conclusions: hedged ones in every position, all permutations
     # conclusions on Takagi-Sugeno terms (Constant, Linear, Function) are activations like any other: same degree, same implication
-    for t in ("K", "L", "F"):
+    # ... and on a term whose height is not 1 (the degree is the rule's, whatever the height of the concluded term)
+    for t in ("K", "L", "F", "SHORT"):
         cases.append((("A", (), t),))
+    cases.append((("B", ("not",), "SHORT"),))
     cases.append((("A", ("very",), "K"), ("B", ("not",), "L"), ("A", (), "F")))
     base2 = [(("A", ("very",), "LOW"), ("B", (), "HIGH")), (("A", ("h1",), "LOW"), ("B", ("h2",), "HIGH")),
              (("A", ("not",), "LOW"), ("A", (), "HIGH")), (("A", ("any",), "LOW"), ("B", ("somewhat",), "LOW")),
